@@ -111,6 +111,13 @@ def gen_rules(rng, topo):
             rules.append({"type": "indirect", "left": "leaf{m}", "right": "rr{r}", "net": rng.randint(201, 250), "asn_l": 64700, "asn_r": 64600,
                           "families": [rng.choice(["ipv4_unicast", "ipv6_unicast"])], "iface": "none", "role": "base",
                           "session": rng.choice([{}, {}, {"multipath": True}])})
+    for kind, grp in (("spine", "a"), ("leaf", "b")):
+        if sum(1 for d in topo["devices"] if d.startswith(kind)) >= 2 and rng.random() < 0.6:
+            # a rule whose two templates match the same pair in both orientations (full mesh inside one tier); the handler is
+            # role dependent (the right side gets another address), so every pair has two sessions and each end sees both
+            rules.append({"type": "indirect", "left": kind + "{%s}" % grp, "right": kind + "{%s2}" % grp, "net": rng.randint(1, 200), "asn_l": 64800, "asn_r": 64800,
+                          "families": [rng.choice(["ipv4_unicast", "ipv6_unicast"])], "iface": "lo0", "role": "base", "session": {}, "mesh2": True})
+            break
     if rng.random() < 0.4:
         rules.append({"type": "virtual", "mask": "leaf{m}", "num": [1, 2][: rng.randint(1, 2)], "svi": rng.randint(10, 20), "asn": 64900, "role": "base"})
     if rng.random() < 0.6:
@@ -199,7 +206,11 @@ def make_registry(rules, order):
                     left.ifname = right.ifname = "lo0"
                     if r["iface"] == "lo0+subif":
                         left.subif = right.subif = 0
-            reg.indirect(r["left"], r["right"])(ihandler)
+            iflt = []
+            if r.get("mesh2"):
+                g1, g2 = re.findall(r"{(\w+)", r["left"])[0], re.findall(r"{(\w+)", r["right"])[0]
+                iflt = [getattr(Left, g1).cast_(int) != getattr(Right, g2).cast_(int)]
+            reg.indirect(r["left"], r["right"], *iflt)(ihandler)
         elif r["type"] == "virtual":
             def vhandler(local, virtual, session, r=r):
                 local.svi = r["svi"]
@@ -452,7 +463,7 @@ def run_merge(spec, acc):
             return set(rng.sample(["ipv4_unicast", "ipv6_unicast", "l2vpn_evpn"], rng.randint(1, 2)))
         if isinstance(merger, BM.Concat):
             return tuple(rng.sample(["a", "b", "c"], rng.randint(1, 2)))
-        return rng.choice([1, 2, "x", True])
+        return rng.choice([1, 2, "x", True, None, None])  # an explicit None is a value like any other (it is not "unset")
 
     def rand_inst(cls):
         kw = {}
